@@ -471,6 +471,50 @@ def gen_chain(rng, n):
     return out
 
 
+def gen_shifted_pairs(rng, n):
+    """Paired rows that are NOT independent per chain: a few joined words alpha+beta, each row cutting its word at its own
+    position (a suffix of one row's alpha chain is a prefix of another row's beta chain), some rows mutated inside a chain,
+    some rows being an earlier row with the two chains exchanged. On such tables the summed per-chain distance differs from
+    any distance of a row-wise combination (concatenation with or without a separator, multiset of chains, ...)."""
+    if rng.random() < 0.5:
+        words = [a + b for a, b in zip(gen_chain(rng, 2), gen_chain(rng, 2))]
+    else:
+        words = [''.join(rng.choice(LETTERS[:rng.randint(3, 10)]) for _ in range(rng.randint(4, 12))) for _ in range(2)]
+    words = words[:rng.choice([1, 1, 2])]
+    rows = []
+    for _ in range(n):
+        if rows and rng.random() < 0.15:
+            a, b = rng.choice(rows)
+            rows.append((b, a))
+            continue
+        w = rng.choice(words)
+        p = rng.randint(1, len(w) - 1)
+        a, b = list(w[:p]), list(w[p:])
+        for ch in (a, b):
+            if rng.random() < 0.25:
+                q = rng.randrange(len(ch))
+                op = rng.random()
+                if op < 0.5:
+                    ch[q] = rng.choice(LETTERS)
+                elif op < 0.75 and len(ch) > 1:
+                    del ch[q]
+                else:
+                    ch.insert(q, rng.choice(LETTERS))
+        rows.append((''.join(a), ''.join(b)))
+    return [r[0] for r in rows], [r[1] for r in rows]
+
+
+def between_thresholds(summed):
+    """Cluster thresholds that separate the distinct summed distances: below the smallest, between consecutive ones, the values
+    themselves (fcluster's `distance` criterion is inclusive)."""
+    vals = sorted({float(v) for v in summed})
+    out = set(vals)
+    for lo, hi in zip([0.0] + vals, vals):
+        if hi > lo:
+            out.add((lo + hi) / 2)
+    return sorted(t for t in out if t > 0) or [1.0]
+
+
 def gen_index(rng, n):
     c = rng.random()
     if c < 0.25:
@@ -509,7 +553,8 @@ def _run(ctx):
                 'seqlogos; (b) count vectors with NaN x all 16 flag combinations x scale factors through rankfrequency (Line2D read back); '
                 '(c) label vectors x min_count None/1..4 x hls / tableau; (d) integer / half-integer point clouds through density_scatter(discrete) '
                 '(PathCollection read back); (e) paired / single-chain tables with arbitrary index and metadata through similarity_clustermap '
-                '(data2d, mesh, dendrogram order, linkage, clusters). non-trivial := (a) a column with two or more residues, (b) at least two '
+                '(data2d, mesh, dendrogram order, linkage, clusters), plus paired tables whose rows cut shared joined words at different '
+                'alpha / beta boundaries or exchange the chains, clustered at thresholds between the distinct summed distances. non-trivial := (a) a column with two or more residues, (b) at least two '
                 'distinct values, (c) at least two distinct labels, (d) a repeated point, (e) at least two distinct distances')
     kinds = ['list', 'list', 'tuple', 'array', 'series']
     # ---- (a) exhaustive small domain
@@ -666,6 +711,29 @@ def _run(ctx):
         if k < 6 and n <= 6:
             order = list(range(n))
             ctx.add_vm('api_c19_clustermap', [alpha, beta, order], orun(ctx, [('api_c19_clustermap', [alpha, beta, order])])[0])
+        if len(ctx.violations) > 6:
+            return
+    # ---- (e') paired tables whose chains are not independent (residues move across the alpha / beta boundary between rows, chains
+    # exchanged between rows), clustered at thresholds lying between the distinct summed distances
+    for k in range(16 if q else 240):
+        n = rng.randint(2, 7)
+        alpha, beta = gen_shifted_pairs(rng, n)
+        index = gen_index(rng, n)
+        meta = {'epitope': [rng.choice(['x', 'y', 'z']) for _ in range(n)]} if k % 4 == 3 else {}
+        cols = ('cdr3a', 'cdr3b') if k % 3 else ('CDR3A', 'CDR3B')
+        link = None if k % 2 else rng.choice([dict(method='single'), dict(method='complete', optimal_ordering=True), dict(method='average')])
+        summed = orun(ctx, [('api_c19_clustermap', [alpha, beta, list(range(n))])])[0][0]
+        clus = dict(t=rng.choice(between_thresholds(summed)), criterion='distance')
+        ctx.count('clustermap_paired_shifted')
+        vs = chk_clustermap(ctx, alpha, beta, 'paired', index, meta, cols, link, clus)
+        if vs and vs[0]['kind'] == 'property' and n > 2:
+            rows = shrink_list(list(zip(alpha, beta)), lambda rr: len(rr) >= 2 and any(
+                v['kind'] == 'property' for v in chk_clustermap(ctx, [r[0] for r in rr], [r[1] for r in rr], 'paired', list(range(len(rr))), {}, cols, link, clus)), 40)
+            vs = chk_clustermap(ctx, [r[0] for r in rows], [r[1] for r in rows], 'paired', list(range(len(rows))), {}, cols, link, clus) or vs
+        _report(ctx, vs)
+        nt = len(set(summed)) >= 2
+        ctx.case(sample=dict(func='similarity_clustermap', alpha=alpha, beta=beta, mode='paired', index=index, cluster_kws=clus) if nt and k % 7 == 0 else None,
+                 nontrivial_key=('cmap-shift', tuple(alpha), tuple(beta), clus['t']) if nt else None)
         if len(ctx.violations) > 6:
             return
     ctx.assumptions += [
